@@ -363,6 +363,15 @@ class SMUserList(UserList, ABC):
     def __rmul__(self, other):
         raise TypeError("unsupported operand type(s) for *: '{}' and '{}'".format(type(other).__name__, type(self).__name__))
 
+    def __iadd__(self, other):
+        # x += y is x = x + y for these classes, not the concatenation a list performs
+        # in place (that is extend)
+        return self + other
+
+    def __imul__(self, other):
+        # x *= y is x = x * y for these classes, not the repetition a list performs in place
+        return self * other
+
     # flag these binary operators as being not supported
     def __lt__(self, other):
         return NotImplementedError
